@@ -272,6 +272,10 @@ func executeProcess(p *Process) {
 		goto cleanUpProcess
 	}
 
+	if p.HasJobId.Get() {
+		Jobs.Add(p)
+	}
+
 executeProcess:
 	if !p.Background.Get() || debug.Enabled {
 		if echo.(bool) {
@@ -283,9 +287,6 @@ executeProcess:
 			ansititle.Tmux([]byte(name))
 		}
 
-	}
-	if p.HasJobId.Get() {
-		Jobs.Add(p)
 	}
 
 	// execution mode:
